@@ -7,15 +7,44 @@ VERIF = os.path.dirname(HERE)
 TECH = "bounded symbolic execution of the compiled Rust (Kani 0.68 -> CBMC 6.11), verdict by SAT solver (CaDiCaL) over all symbolic inputs within the unwind bound; counterexamples replayed natively on the stock build"
 
 CLAIMS = {
-    "C03": ("Length kernel for every usize length and both modes (legal lengths get the specified size byte, every illegal length is refused by a panic and never given a size byte).",
-            "Mode::encode_length only so far; per-kind encode harnesses are added by the generator. Profile substitutions and stubs as listed in the evidence file."),
-    "C04": ("Mode::decode_length for every first byte x buffer length 0..=1100 x mode: need-more-data iff incomplete, frame length = announced, 4 <= n <= limit, framing error only for impossible lengths.",
-            "Codec::decode itself (split_to/advance, type dispatch) never closes under CBMC and is NOT decided; see DESIGN.md C04."),
-    "C13": ("All 2^32 four-byte car identifiers decided in one query: decode rule, error rule, mod rule, byte-exact re-encode; all built-in variants: printed name == wire name.",
+    "C01": ("Per packet kind (generated from the source + an independent spec table): every field symbolic in its wire domain, the real Packet/BinWrite writer then the real BinRead reader return an equal value and consume the whole frame. Bounded: text of fixed small length with symbolic ASCII content, element counts 0..2, time fields from a boundary menu.",
+            "Struct-level through <Packet as BinWrite>::write_options into a slice cursor (Codec::encode over a symbolic payload does not close; its size-byte/Bytes part is decided for Default payloads per kind and for every length by the kernel). Re-encode identity follows from field-wise equality of ALL fields + determinism of the writer and is not separately queried. Only the kinds/configurations listed in closing_set.json; codepage conversion stubbed (ASCII); hash-set payloads empty; Ver.version fixed."),
+    "C02": ("Same symbolic values, differential against reference frames built from spec/insim_v9.py (offsets, widths, enumerant numbers, bit positions, spare bytes zero): encoder output == reference byte for byte, and the reader on the reference frame recovers the values; plus concrete tables of every enum number and flag bit.",
+            "Oracle is my transcription of InSim.txt v9 / relay (no copy in the sandbox); PSE_ pit-work bit numbers and time units not claimed; bounds as C01."),
+    "C03": ("Length kernel for every usize length and both modes; per kind: frame length multiple of 4 within range, type byte, count byte == elements (counts 0..2, text lengths fixed), Codec::encode(Default payload) == size byte + writer output in both modes, and packets obtained by decoding arbitrary bytes never abort the writer (kinds without text).",
+            "Counts above 2 and texts of other lengths are outside; re-encode-after-decode for text kinds does not close (symbolic text length)."),
+    "C04": ("Mode::decode_length for every first byte x buffer length 0..=1100 x mode; per kind the real reader over arbitrary bytes of the nominal body size never panics and never reads beyond the frame (count bytes concrete 0..2).",
+            "Codec::decode itself (BytesMut split_to/advance, type dispatch, error path progress) does NOT close under CBMC and is not decided: a change confined to it is invisible to this check."),
+    "C06": ("blocking Framed::write over a transport accepting any k in 1..=len bytes per call: two packets arrive complete, contiguous, in order (both modes).",
+            "blocking connection only; 2 packets <= 12 bytes; the tokio write path hand-polled does not close and is not claimed; UDP/WebSocket adaptors not claimed."),
+    "C07": ("Packet::maybe_pong / Tiny::is_keepalive for every TINY (256 request ids x all sub-types) and every other kind.",
+            "Decision function only: that Framed::read writes the reply once, before returning, and nothing else, is NOT decided (read loop does not close)."),
+    "C09": ("Packet::maybe_verify_version for all 256 versions and every other kind; VERSION == 9.",
+            "Decision function only: application of the gate inside Framed::read / Builder::verify_version wiring is NOT decided."),
+    "C11": ("Fixed-width and align-4 text writers, MST/MSX/MSL/MTC frames and the fixed-width reader, for text lengths enumerated around every field width (concrete per harness) with symbolic ASCII content; reader over every [u8; N] image.",
+            "Text LENGTH is concrete per harness (a symbolic length does not close); non-ASCII text (encoded length != character count) outside; known finding: missing NUL terminators, see known_findings.json."),
+    "C13": ("All 2^32 four-byte car identifiers in one query: decode rule, error rule, mod rule, byte-exact re-encode; all built-ins: printed name == wire name.",
             "alloc::fmt::format stubbed (error text only)."),
+    "C14": ("All 2^48 six-byte values (decode => identical re-encode, accessors agree with the bytes) and all configurations by symbolic index (wire form == code NUL padded, decodes to itself, reverse/open suffix rule, open => no distance, one licence per area).",
+            "Variant list generated from the enum declaration; alloc::fmt::format stubbed."),
+    "C15": ("RaceLaps: all 256 bytes, every usize lap and hour count; duration reader/writer at the four instantiations in use: every wire value round-trips, any Duration up to Duration::MAX is floor-scaled or refused; SMALL timed sub-types likewise.",
+            "32-bit SMALL wire round trips per sub-type may be tiered thorough (128-bit arithmetic)."),
+    "C16": ("Ord/PartialOrd/PartialEq of GameVersion over three symbolic values: reflexive, antisymmetric, transitive, consistent with ==, ordered by (number, letter, revision-or-0).",
+            "Order/equality half only; NaN and -0.0 excluded (not producible by the parser - argument from reading). Parser/printer half not applicable (dec2flt / float formatting)."),
+    "C17": ("PTH: images with node count 0/1/2 and all other bytes symbolic parse and re-write byte-identically; wrong magic, fixed truncation points and hostile count fields (-1, i32::MIN, i32::MAX, 10^6) are rejected without panic. SMX: images with 0/1 objects, ASCII track name.",
+            "Counts and truncation points are concrete per harness (symbolic ones do not close); files/allocation size outside."),
+    "C18": ("Symbolic builder program (flag setters in any order with overrides, wholesale replacement, prefix/interval/reqi present or absent, transport chosen twice) -> Builder::isi field by field; blocking handshake over a recording transport sends exactly the 44-byte ISI in the configured mode.",
+            "Handshake harness uses a concrete configuration apart from the request id (Codec::encode over a symbolic ISI does not close); real sockets outside."),
 }
 
-NOT_APPLICABLE = {}
+NOT_APPLICABLE = {
+    "C05": "blocking Framed::read over a nondeterministic transport gives no result in 25 min even for one concrete 4-byte frame (BytesMut + 73-variant Packet::read under CBMC); the tokio half needs the runtime's time driver",
+    "C08": "blocking UdpStream::read with recv stubbed exceeds 13.9 GB in 3 min for datagrams <= 8 bytes (1020-byte scratch array + BytesMut copies with symbolic lengths); the tokio adaptor needs a reactor",
+    "C10": "encoding_rs (inline asm, CPUID multiversioning, AVX2) is untranslatable by Kani; with it stubbed the residual marker scanner needs > 18 GB for 3 input bytes",
+    "C12": "unescape(escape(s)) over two ASCII characters needs 27.8 GB in the SAT stage; the property's interactions need three",
+    "C19": "needs tokio's time driver/reactor; Kani models neither runtime nor concurrency",
+    "C20": "tokio-tungstenite over a concrete tokio TcpStream: protocol engine and sockets are not encodable",
+}
 
 def main():
     checks = []
